@@ -160,6 +160,22 @@ def real_unparse(cls, inst, targets=(), excluded=()):
     return ("ok", [[k, v if isinstance(v, str) else str(v)] for k, v in d.items()]), d
 
 
+def shared_roundtrip(rp, t, inst, targets, data: dict):
+    """unparse and parse with a RowParser that is REUSED over many rows (one parser per sheet, as SheetParser
+    and RowDataSheet use it): → (cells outcome like real_unparse, parse outcome like real_parse)"""
+    try:
+        d = rp.unparse_row(inst, set(targets), set())
+        cells = ("ok", [[k, v if isinstance(v, str) else str(v)] for k, v in d.items()])
+    except Exception as e:  # noqa: BLE001
+        cells = ("err", type(e).__name__)
+    try:
+        m = rp.parse_row(dict(data))
+        back = ("ok", canon_plain(t, plain_of_instance(t, m)))
+    except Exception as e:  # noqa: BLE001
+        back = ("err", type(e).__name__)
+    return cells, back
+
+
 def real_parse(cls, t, data: dict):
     """→ ("ok", canonical plain value) | ("err", exception class)"""
     from rpft.parsers.common.cellparser import CellParser
